@@ -70,7 +70,10 @@ type Dumper struct {
 }
 
 // templateAccessors expose pre-expansion statement templates.
-var templateAccessors = map[string]bool{"Groupings": true, "Augments": true, "Deviations": true}
+// Refines are the instructions of a uses statement; a uses (and so its
+// refines) survives only inside unexpanded bodies, including the body of an
+// extension statement, and their accessors have Is…Set preconditions.
+var templateAccessors = map[string]bool{"Groupings": true, "Augments": true, "Deviations": true, "Refinements": true}
 
 func New() *Dumper {
 	d := &Dumper{seen: map[uintptr]int{}, MaxObjs: 200000, pkgPrefix: "github.com/freeconf/yang/"}
